@@ -43,6 +43,19 @@ def compress(data, kind):
     raise ValueError(kind)
 
 
+def chain_bytes(n, label, prefix=b""):
+    """n deterministic bytes no compressor can shrink: prefix + sha256(label), sha256 of that, ... (chained digests),
+    cut to n bytes.  Nothing random: the same (n, label, prefix) always gives the same bytes."""
+    out = [prefix]
+    have = len(prefix)
+    block = hashlib.sha256(b"verif/chain/" + label.encode("utf-8")).digest()
+    while have < n:
+        out.append(block)
+        have += len(block)
+        block = hashlib.sha256(block).digest()
+    return b"".join(out)[:n]
+
+
 def tar_bytes(files, with_dirs=True):
     """files: list of (relative name, bytes[, mode]).  Members are "./", the intermediate directories (each
     once, before their first use) and "./name" for every file, in the given order (GNU format, as dpkg-deb writes)."""
